@@ -221,8 +221,11 @@ Print Assumptions C19_limit_error_same_infinity.
 (* the summation variable                                                                          *)
 (* ---------------------------------------------------------------------------------------------- *)
 (* "a summation variable that already has a meaning raises a student-facing error": every name bound in the sample
-   dictionaries (variables and constants, including the instructor-only ones: fix e54e9a1), every function / constant
-   name, and everything that is not a variable name *)
+   dictionaries (variables, numbered-variable instances and constants, including the instructor-only ones: fix e54e9a1),
+   every name of c_reserved = self.functions (default and deterministic user functions) ++ self.random_funcs
+   (RandomFunction / SpecificFunctions entries of user_functions) ++ self.constants (default and user constants),
+   and everything that is not a variable name.  Metric-suffix letters and the bare head of a numbered variable are
+   not names with a meaning of their own and are accepted (checked by the harness' contrast cases). *)
 Theorem C19_dummy_with_meaning_rejected :
   (forall (V : Type) (vzero : V) (vadd : V -> V -> V) (parses : str -> outcome unit)
      (uses_fact uses_factorial : str -> bool) (eval_limit : str -> list str -> nat -> outcome pyv)
